@@ -288,13 +288,13 @@ fn flush_probe(
     reopen_once(dir, opts, spec, None, true, ingest_first)
 }
 
-/// the request the continuation probe sends to the recovered database: 40 more rows for the first
-/// table (enough to make the next flush merge that table's partitions, so that the catalogue file
-/// it writes is shorter than the one a crash may have left behind as a temp file)
-fn continuation_batch(spec: &BTreeMap<String, Vec<String>>) -> Option<Sx> {
-    let t = spec.keys().next()?;
-    let ids: Vec<Sx> = (0..40).map(|i| lst(vec![a("i"), Sx::int(1_000_000 + i)])).collect();
-    Some(lst(vec![lst(vec![name_sx(t), Sx::int(40), lst(vec![lst(vec![name_sx("id"), lst(ids)])])])]))
+/// the request the continuation probe sends to the recovered database: three rows for a table of
+/// its own.  (Rows for an existing table would share a new partition with replayed rows that carry
+/// more columns; merging such a partition is the open finding F1.)
+const CONT_TABLE: &str = "zcont";
+fn continuation_batch() -> Sx {
+    let ids: Vec<Sx> = (0..3).map(|i| lst(vec![a("i"), Sx::int(i)])).collect();
+    lst(vec![lst(vec![name_sx(CONT_TABLE), Sx::int(3), lst(vec![lst(vec![name_sx("id"), lst(ids)])])])])
 }
 
 fn reopen_once(
@@ -555,7 +555,8 @@ pub fn run_crash(input: &Sx) -> Vec<Outcome> {
     let selected: Vec<&Cut> = selected
         .into_iter()
         .filter(|c| {
-            if c.op_kind == "ingest" {
+            if c.op_kind == "ingest" || (c.effect == "write" && c.path.starts_with("meta")) {
+                // (the cut that leaves a completely written catalogue temp file behind is always kept)
                 true
             } else {
                 k += 1;
@@ -566,6 +567,9 @@ pub fn run_crash(input: &Sx) -> Vec<Outcome> {
     let mut trace: Vec<Sx> = vec![];
     let mut variant_no = 0usize;
     let mut probed = [false; 4];
+    // the cuts that leave a catalogue / partition temp file behind are probed at the last flush of
+    // the workload (its catalogue is the longest, its partition files the most)
+    let last_flush: usize = selected.iter().filter(|c| c.op_kind == "flush").map(|c| c.op_index).max().unwrap_or(0);
     for cut in selected {
         let mut variants: Vec<(String, Option<u64>)> = vec![("whole".into(), None)];
         if cut.effect == "write" && cut.path.starts_with("wal/") {
@@ -700,23 +704,36 @@ pub fn run_crash(input: &Sx) -> Vec<Outcome> {
                     } else {
                         4
                     };
-                    if kind < 4 && !probed[kind] {
+                    let eligible = if kind == 1 || kind == 2 { cut.op_index == last_flush && trunc.is_none() && cut.effect != "create" } else { true };
+                    if kind < 4 && eligible && !probed[kind] {
                         probed[kind] = true;
-                        let cont = continuation_batch(&spec);
+                        // after a cut that left a catalogue / partition temp file the probe only flushes
+                        // (with factor 0 every table is merged into one partition, so the catalogue file
+                        // it writes is shorter than the leftover whenever a table had two partitions);
+                        // after the other cuts it first sends a request for a table of its own
+                        let cont: Option<Sx> = if kind == 0 || kind == 3 { Some(continuation_batch()) } else { None };
                         let mut allowed2: Vec<Logical> = cut.allowed.clone();
+                        let mut spec = spec.clone();
                         if let Some(b) = &cont {
                             for l in allowed2.iter_mut() {
                                 l.apply(b.items());
                             }
+                            spec.insert(CONT_TABLE.to_string(), vec!["id".to_string()]);
                         }
                         let tag = ["wal-temp", "meta-temp", "part-temp", "flush-cut"][kind];
                         // the options may change between lifetimes: factor 0 makes the flush merge every
                         // table into one partition
+                        // (with the extra table _meta_tables holds eight similar names; compacting it is
+                        // the open finding F28, so those probes run with factor 4)
+                        let probe_factor: u64 = if kind == 0 || kind == 3 { 4 } else { 0 };
                         let opts0: Vec<Sx> = opts
                             .iter()
-                            .map(|o| if o.tag() == "combine" { lst(vec![a("combine"), Sx::int(0)]) } else { o.clone() })
+                            .map(|o| if o.tag() == "combine" { lst(vec![a("combine"), Sx::int(probe_factor)]) } else { o.clone() })
                             .collect();
-                        match flush_probe(&v, &opts0, &spec, cont.as_ref()) {
+                        let vp = work.path().join(format!("p{}", variant_no));
+                        let _ = std::fs::remove_dir_all(&vp);
+                        copy_tree(&v, &vp);
+                        match flush_probe(&vp, &opts0, &spec, cont.as_ref()) {
                             Err((sig, msg)) => violation(
                                 format!("{}:{}", sig, tag),
                                 format!("cut after {} of {} ({}): {}", cut.effect, cut.path, vname, msg),
@@ -725,9 +742,10 @@ pub fn run_crash(input: &Sx) -> Vec<Outcome> {
                             Ok((dd, _)) => {
                                 stats.continued += 1;
                                 if !allowed2.iter().any(|l| l.differs(&dd, &spec).is_none()) {
-                                    violation(format!("flush-after-recovery:content:{}", tag), "a request and a flush after the recovery: content is not the recovered content plus the request".into(), &mut outs);
+                                    let why = allowed2.last().unwrap().differs(&dd, &spec).unwrap_or_default();
+                                    violation(format!("flush-after-recovery:content:{}", tag), format!("(a request and) a flush after the recovery: content is not the recovered content (plus the request): {}", why), &mut outs);
                                 } else {
-                                    match reopen_once(&v, &opts, &spec, None, false, None) {
+                                    match reopen_once(&vp, &opts, &spec, None, false, None) {
                                         Err((sig, msg)) => violation(
                                             format!("restart-after-recovery:{}:{}", sig, tag),
                                             format!("cut after {} of {} ({}): recovered, one request, one flush, clean restart: {}", cut.effect, cut.path, vname, msg),
@@ -743,6 +761,7 @@ pub fn run_crash(input: &Sx) -> Vec<Outcome> {
                             }
                         }
                     }
+                    let _ = std::fs::remove_dir_all(work.path().join(format!("p{}", variant_no)));
                     // recovering twice changes nothing (sampled)
                     if variant_no % 4 == 0 {
                     match reopen(&v, &opts, &spec, None, None) {
